@@ -6,6 +6,7 @@ import (
 	"encoding/binary"
 	"fmt"
 	"math/big"
+	"strings"
 	"testing"
 
 	"github.com/zenon-network/go-zenon/chain/nom"
@@ -93,7 +94,27 @@ func TestC11(t *testing.T) {
 		spec := genSpec(c)
 		spec.ActiveSporks = []uint64{0, 2}[c.Pick("c11.sporks", 2)]
 		opts := genWorldOpts(c)
+		// liquidity worlds: the administrator configured the stakeable tokens and their shares, accounts stake
+		liqWorld := c.Weighted("c11.liquidityWorld", 2, 1) == 1
+		if liqWorld {
+			spec.ActiveSporks = 2
+			opts.Bridge = true
+			for len(spec.Users) < 5 {
+				spec.Users = append(spec.Users, sim.UserSpec{Znn: 9000, Qsr: 90000})
+			}
+		}
 		h := sim.NewHist(c, spec, opts)
+		if liqWorld {
+			c.Class("liquidity-world")
+			if err := sim.LiquidityScript(h); err != nil {
+				c.Note("liquidity script stopped: %v", err)
+			}
+			for _, in := range sim.BridgeIntents() {
+				if strings.HasPrefix(in.Name, "liquidity-") {
+					h.Intents = append(h.Intents, in, in)
+				}
+			}
+		}
 		for _, in := range sim.DefaultIntents() {
 			h.Intents = append(h.Intents, in)
 			switch in.Name {
@@ -328,6 +349,15 @@ func TestC11(t *testing.T) {
 							}
 							return
 						}
+					}
+				}
+			},
+			// the node restarts: consensus statistics of finished periods come back from its consensus database
+			// (kept) or are recomputed from the chain
+			"restart": func() {
+				if c.Weighted("restart.do", 2, 1) == 1 && !h.Dead {
+					if h.RestartNode(c.Weighted("restart.keep", 1, 3) == 1) {
+						c.Class("producer-restarted")
 					}
 				}
 			},
